@@ -61,10 +61,12 @@ PROPS = {
         explain='Bounded only for the end-to-end statement. The property is about Arc::strong_count reaching 1 (live clones across the heap): Verus treats Arc<T> as T, Kani contracts cannot quantify over the heap. '
                 'Checked: (1) Verus, handle PLACEMENT for all inputs: append_record stores a handle in the new last record, clears the previous last record\'s handle iff it names the same file, leaves all others alone (O-C06-place-append); '
                 'truncate_head keeps exactly the handles of the retained records (O-C06-place-trunc); the clone of the current file is held across the GC pass (O-C01-gc-pin, syntactic ownership check). '
+                'FileTracker::take_first_unused hands out only the OLDEST tracked file and never the last remaining one (O-C06-take-oldest); Directory::gc removes a strict prefix of the tracked files and keeps at least one (O-C06-gc-prefix) '
+                '-- both verified against assumed contracts of BTreeSet::{first,pop_first}; the GC pass is invoked unconditionally by truncate/delete_queue/open (O-C06-gc-invoked-*, syntactic). '
                 '(2) Kani K-handles, BOUNDED (fixed 3-append / 2-file shape, symbolic truncate position): a file handle can_be_deleted() iff no retained record was appended with it.',
         kani_quick=['K-handles'], kani_thorough=[],
         trusted=['everything outside the harness'],
-        not_decided=['that the GC pass is invoked at the end of truncate/delete/open', 'FileTracker (BTreeSet: CBMC does not finish)', 'the directory listing itself', 'disk_used_bytes',
+        not_decided=['that can_be_deleted() is true exactly when no queue retains a record of the file (Arc strong counts; bounded K-handles only)', 'FileTracker::{next,inc} (BTreeSet::range)', 'the directory listing itself', 'disk_used_bytes',
                      'identity of the stored handle with the file being written (derived Clone has no Verus spec)'],
     ),
     'C07': dict(
